@@ -131,9 +131,10 @@ func (x *c08Inst) note(b byte) {
 func (x *c08Inst) write(p []byte) error {
 	if x.reading {
 		m, panicked := catch(func() { x.h.Write(p) })
-		if !panicked || m != "sha3: Write after Read" {
-			return fmt.Errorf("Write(%d bytes) after Read: panicked=%v %q, documented: panics (\"sha3: Write after Read\")", len(p), panicked, m)
+		if !panicked {
+			return fmt.Errorf("Write(%d bytes) after Read did not panic (documented: it panics)", len(p))
 		}
+		_ = m
 		x.note('!')
 		return nil
 	}
@@ -149,9 +150,10 @@ func (x *c08Inst) write(p []byte) error {
 func (x *c08Inst) sum(prefix []byte) error {
 	if x.reading {
 		m, panicked := catch(func() { x.h.Sum(prefix) })
-		if !panicked || m != "sha3: Sum after Read" {
-			return fmt.Errorf("Sum after Read: panicked=%v %q, documented: panics (\"sha3: Sum after Read\")", panicked, m)
+		if !panicked {
+			return fmt.Errorf("Sum after Read did not panic (documented: it panics)")
 		}
+		_ = m
 		x.note('?')
 		return nil
 	}
